@@ -15,7 +15,10 @@
  * stdin, one case per line (64-bit quantities as two 32-bit halves "hi lo"):
  *   N size_0..size_{N-1} (param_hi param_lo)*N mx K (to depth rbx rbp r12 r13 r14 r15)*K
  *   (size_0 / param_0 are ignored; mx=1: each context sets its own MXCSR / x87
- *    rounding mode before switching, to see whether it leaks - report only)
+ *    rounding mode before switching, to see whether it leaks - report only;
+ *    depth = number of nested small frames (0..64) the switch is made from, or
+ *    9216 = from inside a function with a 72 KB frame: under split stacks the
+ *    context is then on a new stack segment, see big_frame_switch)
  * stdout, one line per case:
  *   N (base%4096 ctx_stack_size)*N   then one 18-number record per switch, for
  *   the context switched TO (same format as coq/Ctx.v):
@@ -85,6 +88,8 @@ static volatile int g_cur, g_k;
 static uint64_t* top[MAXCTX];
 static uint64_t* lo_addr[MAXCTX];
 static uint64_t cks[MAXCTX];
+static uint64_t* extra_lo[MAXCTX];   /* large local buffer of big_frame_switch, if any */
+static uint64_t* extra_hi[MAXCTX];
 static long mx_diffs, cw_diffs;
 
 static int64_t* out; /* shared with the parent: out[0] = count */
@@ -223,6 +228,10 @@ static uint64_t cksum(uint64_t* lo, uint64_t* hi) {
   return h;
 }
 
+static uint64_t live_cksum(int me) {
+  return cksum(lo_addr[me], top[me]) ^ (3 * cksum(extra_lo[me], extra_hi[me]));
+}
+
 static void set_fp_modes(int me) {
   uint32_t mx = 0x1f80u | ((uint32_t)(me & 3) << 13);
   uint16_t cw = (uint16_t)(0x037fu | ((me & 3) << 10));
@@ -239,7 +248,7 @@ static __attribute__((noinline)) void do_switch(void) {
   g_k++;
   if (to == me || to < 0 || to >= N) return;
   lo_addr[me] = (uint64_t*)__builtin_frame_address(0);
-  cks[me] = cksum(lo_addr[me], top[me]);
+  cks[me] = live_cksum(me);
   if (MX) set_fp_modes(me);
   g_cur = to;
   g_resume_rec = &rec[to];
@@ -252,7 +261,7 @@ static __attribute__((noinline)) void do_switch(void) {
   log_regs(r->after);
   emit((int64_t)(r->rsp_after - r->rsp_before));
   emit(0); emit(0);
-  emit(cksum(lo_addr[me], top[me]) != cks[me]);
+  emit(live_cksum(me) != cks[me]);
   if (r->mxcsr_after != r->mxcsr_before) mx_diffs++;
   if (r->cw_after != r->cw_before) cw_diffs++;
 }
@@ -265,8 +274,31 @@ static __attribute__((noinline)) void descend(int d) {
   pad[2] = pad[0] + pad[1];
 }
 
+/* A step with depth BIGDEPTH switches out from inside a function with a 72 KB
+   frame (touched).  With split stacks such a frame does not fit the current
+   segment, so __morestack moves the context onto a NEW segment: the context is
+   then switched out from a different segment than at its earlier switch-outs,
+   resumed there, and returns through __morestack's epilogue.  Without split
+   stacks it is just a deep frame (the case generator gives such contexts a
+   large stack). */
+#define BIGDEPTH 9216
+#define BIGBYTES (8 * BIGDEPTH)
+static __attribute__((noinline)) void big_frame_switch(void) {
+  volatile unsigned char buf[BIGBYTES];
+  int me = g_cur;
+  for (size_t i = 0; i < BIGBYTES; i += 64) buf[i] = (unsigned char)(i * 7 + (size_t)me + (size_t)g_k);
+  extra_lo[me] = (uint64_t*)(((uintptr_t)buf + 7) & ~(uintptr_t)7);
+  extra_hi[me] = (uint64_t*)(((uintptr_t)buf + BIGBYTES) & ~(uintptr_t)7);
+  do_switch();
+  me = g_cur;
+  extra_lo[me] = extra_hi[me] = 0;
+  buf[1] = buf[0];
+}
+
 static void run_steps(void) {
-  while (g_k < K) descend(chain[g_k].depth);
+  while (g_k < K) {
+    if (chain[g_k].depth == BIGDEPTH) big_frame_switch(); else descend(chain[g_k].depth);
+  }
 }
 
 void ctx_body(void) {
@@ -295,7 +327,7 @@ static __attribute__((noinline)) void run_case(int64_t* v, int n) {
   chain = __real_malloc(sizeof(step_t) * (size_t)(K + 1));
   for (int k = 0; k < K; k++) {
     chain[k].to = (int)v[i++]; chain[k].depth = (int)v[i++];
-    if (chain[k].depth < 0 || chain[k].depth > 64) chain[k].depth = 0;
+    if (chain[k].depth != 9216 && (chain[k].depth < 0 || chain[k].depth > 64)) chain[k].depth = 0;
     for (int j = 0; j < 6; j++) { uint64_t h = (uint64_t)v[i++]; chain[k].plant[j] = (h << 32) | (uint64_t)v[i++]; }
   }
   /* create */
